@@ -29,6 +29,8 @@ def payload(ptype, i):
         return (i, "s%d" % i, (i, i + 1))
     if ptype == "bytes":
         return bytes([i, i + 1, 255]) * 5
+    if ptype == "optional":
+        return None if i == 0 else ("v", i)      # None is a picklable payload too
     if ptype == "tensor":
         import torch
         return torch.arange(6).view(2, 3) + 10 * i
@@ -122,20 +124,32 @@ class GatedBase:
         return self.gate.step("load", int(i), lambda: payload(self.ptype, int(i)))
 
 
-def child_main(conn, ds, ptype):
-    gate = Gate(conn, ds.shared_dict)
-    ds.shared_dict = GateDict(gate)
-    ds.dataset = GatedBase(gate, ptype, len(IDX))
+def child_main(conn, pristine, ptype):
+    import copy
     calls = dict(n=0)
 
     def transform(x):
         calls["n"] += 1
         return T(x)
 
-    ds.transform = transform
+    def fresh():
+        # a fresh copy of the dataset object as it was forked (per-process state must not leak between schedules);
+        # the Manager proxy itself is shared, not copied
+        real = pristine.shared_dict
+        ds = copy.deepcopy(pristine, memo={id(real): real})
+        gate = Gate(conn, real)
+        ds.shared_dict = GateDict(gate)
+        ds.dataset = GatedBase(gate, ptype, len(IDX))
+        ds.transform = transform
+        return ds
+
+    ds = fresh()
     while True:
         cmd = conn.recv()
-        if cmd[0] == "access":
+        if cmd[0] == "reset":
+            ds = fresh()
+            conn.send(("resetdone",))
+        elif cmd[0] == "access":
             calls["n"] = 0
             try:
                 v = ds[cmd[1]]
@@ -196,6 +210,11 @@ class Pool:
         """workload: list per process of commands ("a", i) | ("c",). prefix: forced choices (process numbers).
         Returns (events, choices, enabled_sets)."""
         self.ds.shared_dict.clear()
+        for c in self.conns:
+            c.send(("reset",))
+        for c in self.conns:
+            if not c.poll(20) or c.recv()[0] != "resetdone":
+                raise tlc.TLCError("reader process did not reset")
         n = len(workload)
         todo = [list(w) for w in workload]
         pending = [None] * n  # pending gate request of a blocked process
@@ -379,7 +398,7 @@ def run(prop, tier, seed):
     # ---- (R/T) every interleaving on the real class
     traces = []
     workloads = WORKLOADS_QUICK if quick else WORKLOADS_THOROUGH
-    ptypes = ["int", "tensor"] if quick else ["int", "tuple", "bytes", "tensor"]
+    ptypes = ["int", "tensor", "optional"] if quick else ["int", "tuple", "bytes", "tensor", "optional"]
     exhaustive = True
     for pi, ptype in enumerate(ptypes):
         pool = Pool(3, ptype)
